@@ -51,6 +51,9 @@ typedef struct grammar *G;
 extern FILE *yaep_verif_out;
 extern int yaep_verif_flags;
 extern const char *yaep_verif_prefix;
+#ifndef YH_CXX
+extern unsigned int all_searches, all_collisions;	/* hashtab.c */
+#endif
 extern unsigned yaep_verif_hash_mask;	/* weak-hash runs: only these bits of every hash value count */
 #endif
 
@@ -604,6 +607,15 @@ run_case (int case_timeout)
 	      nres[h] = 0;
 	      printf ("%screate %s\n", prefix, handles[h] ? "ok" : "null");
 	    }
+	  else if (!strcmp (cmd, "counters"))
+	    {
+	      /* a long-running process: the process-wide statistics counters of the hash tables have
+	         (almost) reached INT_MAX (finding D33) */
+#ifndef YH_CXX
+	      all_searches = all_collisions = (unsigned) atol (strtok_r (NULL, " \n", &save));
+#endif
+	      printf ("%scounters\n", prefix);
+	    }
 	  else if (!strcmp (cmd, "failat"))
 	    {
 	      /* the h-th library allocation from now on fails */
@@ -750,6 +762,7 @@ main (int argc, char **argv)
 	  if (!(WIFEXITED (st) && WEXITSTATUS (st) == 0))
 	    {
 	      FILE *ef = fopen (errpath, "r"); char buf[400]; int cnt = 0;
+	      putchar ('\n');	/* the child may have died in the middle of a line */
 	      if (WIFSIGNALED (st) && WTERMSIG (st) == SIGALRM) printf ("o crash timeout\n");
 	      else if (WIFSIGNALED (st)) printf ("o crash signal %d\n", WTERMSIG (st));
 	      else printf ("o crash exit %d\n", WEXITSTATUS (st));
